@@ -217,9 +217,10 @@ static void item_make(const sitem *it,corpus *c){
 }
 
 /* ---- the enumerated item list of a tier ----
- * quick   : CFG 64 configs x 1 bitrate x 1 signal (both rotate with the config so that all three bitrates and all six signal
- *           classes occur), cfg_ms long; TRANS all 306 ordered pairs x schedule 0 (20 ms) x speech-like; REFRAME 64 configs x
- *           applicable variants; FEAT all x {mono,stereo} x 1 signal
+ * quick   : CFG 64 configs x 1 bitrate x 2 signals (both rotate with the config so that all three bitrates and all six signal
+ *           classes occur), cfg_ms long; TRANS all 306 ordered pairs x schedules 0,1 (20 ms, 10 ms) x speech-like + the 24 long
+ *           SILK-bandwidth schedules; REFRAME 64 configs x applicable variants (bitrate and signal rotate with config and variant);
+ *           FEAT all x {mono,stereo} x 1 signal
  * thorough: CFG 64 x 3 bitrates x 6 signals, 1 s; TRANS 306 x 5 schedules x 2 signals, 0.4 s; REFRAME 64 x variants x 3 bitrates;
  *           FEAT all x {mono,stereo} x 3 signals
  */
